@@ -108,7 +108,7 @@ CHECKS["C18"] = dict(
          "induction over the parser's recursion). "
          "Tie: AST correspondence; ast.walk oracle on the real output against the regenerated vocabulary, adversarial payloads at every "
          "program-text position (exhaustive to length 2/3), attacks on the escaping of string constants, and random code-page / Unicode strings; "
-         "the same with the V flag on (one-character variable names: a lexer mode the Lean lexer model does not have, so for it the oracle is all there is).",
+         "the same with the V flag on (one-character variable names: Model/LexerV.lean, lexV_variable_letters, tied by the tokV stream; the tree-level theorems are stated for the default lexer).",
     note=COMMON_NOTE + "The step from the emitted text to the tree is the AST correspondence. T3: repr(str)/str(int) produce valid literals.",
     technique="Lean 4 proof (mutual structural induction over the transpiler model, lexer loop invariants, induction on strings, kernel evaluation over tables); AST correspondence; ast.walk vocabulary oracle",
     ref="§5 C18")
